@@ -160,6 +160,9 @@ var (
 	}
 )
 
+// unwrapped values of the "negative" mode
+var nonPositive = []string{"-1", "-3", "-7.5", "0", "-10", "-2", "-0.5"}
+
 // values of the label that both the stream and its lines carry in "collide" mode
 var collideVals = []string{"unknown", "info", "error", "0"}
 
@@ -324,6 +327,12 @@ func genPostStage(rt *rapid.T, opt genOpts) refeval.Stage {
 		}
 		return refeval.Stage{Kind: refeval.KLabelFormat, Params: ps}
 	case 7, 8:
+		if rapid.Bool().Draw(rt, "drop_repeated") {
+			if opt.hot != "" && rapid.IntRange(0, 2).Draw(rt, "drop_hot") > 0 {
+				return genDropRepeatedOf(rt, opt.hot, opt.hotVals)
+			}
+			return genDropRepeated(rt, []string{"level", "level", "a", "lvl", "code", "app", "env"})
+		}
 		n := rapid.IntRange(1, 2).Draw(rt, "ndrop")
 		var ps []refeval.Param
 		for i := 0; i < n; i++ {
@@ -348,6 +357,10 @@ func genPostStage(rt *rapid.T, opt genOpts) refeval.Stage {
 }
 
 type genOpts struct {
+	// a label most entries carry at the in-process stages (the colliding label of "collide"
+	// mode, else app) and the values it takes: repeated-name drops aim at it 2 times in 3
+	hot     string
+	hotVals []string
 	// regions of known findings, excluded by construction unless the flag is set
 	labelFormatTemplates bool
 }
@@ -389,6 +402,9 @@ func genCaseOpt(rt *rapid.T, opt genOpts) splitCase {
 	if shape >= 4 {
 		ulabel = pick(rt, []string{"dur", "n", "n", "code", "level"}, "ulabel")
 	}
+	// unwrap queries, 1 in 3: all unwrapped values are negative or zero and the range aggregation
+	// sits under a vector min / max by (app) - groups whose extreme is not positive
+	negMode := shape >= 4 && rapid.IntRange(0, 2).Draw(rt, "negmode") == 0
 	format := pick(rt, []string{"json", "json", "logfmt"}, "format")
 	malformed := rapid.IntRange(0, 4).Draw(rt, "malformed") == 0
 	twin := rapid.IntRange(0, 3).Draw(rt, "twinmode") == 0
@@ -415,7 +431,7 @@ func genCaseOpt(rt *rapid.T, opt genOpts) splitCase {
 		lfFirst = rapid.IntRange(0, 7).Draw(rt, "lf_first") == 0
 	}
 	if lfFirst && shape >= 4 {
-		shape, ulabel = 3, ""
+		shape, ulabel, negMode = 3, "", false
 	}
 	tmplMode := !lfFirst && rapid.IntRange(0, 4).Draw(rt, "tmplmode") == 0
 	rxMode := !lfFirst && !tmplMode && rapid.IntRange(0, 4).Draw(rt, "rxmode") == 0
@@ -442,7 +458,7 @@ func genCaseOpt(rt *rapid.T, opt genOpts) splitCase {
 		collideName = pick(rt, []string{"level", "level", "lvl", "code"}, "collide_name")
 		plain = rapid.IntRange(0, 2).Draw(rt, "collide_plain") > 0
 		if plain && shape >= 4 {
-			shape, ulabel = 2, ""
+			shape, ulabel, negMode = 2, "", false
 		}
 	}
 
@@ -507,6 +523,10 @@ func genCaseOpt(rt *rapid.T, opt genOpts) splitCase {
 				} else {
 					line = `{"msg":` + strconv.Quote(w) + `,"level":"info"}`
 				}
+			}
+			if negMode {
+				// every line carries a value <= 0 under the unwrapped key
+				line = withNumber(line, format, ulabel, pick(rt, nonPositive, "uneg"))
 			}
 			if ulabel != "" && rapid.IntRange(0, 3).Draw(rt, "uval") > 0 {
 				// an unwrap query: most lines carry a number under the unwrapped key
@@ -589,6 +609,13 @@ func genCaseOpt(rt *rapid.T, opt genOpts) splitCase {
 	if lfFirst {
 		npost = 0
 	}
+	if negMode && npost > 1 {
+		npost = 1
+	}
+	opt.hot, opt.hotVals = "app", dropValues["app"]
+	if collide {
+		opt.hot, opt.hotVals = collideName, collideVals
+	}
 	for i := 0; i < npost; i++ {
 		st := genPostStage(rt, opt)
 		if plain && st.Kind != refeval.KLineFilter && st.Kind != refeval.KLabelFilter {
@@ -637,7 +664,18 @@ func genCaseOpt(rt *rapid.T, opt genOpts) splitCase {
 		if rapid.IntRange(0, 3).Draw(rt, "rcmp") == 0 {
 			c.Expr.RangeCmp = genComparison(rt)
 		}
-		if rapid.IntRange(0, 1).Draw(rt, "agg") == 0 && !plain {
+		if negMode && shape >= 4 {
+			c.Expr.RangeFn = pick(rt, []string{"sum_over_time", "min_over_time", "max_over_time", "avg_over_time", "last_over_time", "first_over_time"}, "neg_fn")
+			c.Expr.RangeCmp = nil
+			// inner series must stay several per app: group the range aggregation only by
+			// removing the unwrapped label (the other extracted labels differ from line to line)
+			c.Expr.RangeGroup = &refeval.Grouping{Without: true, Labels: []string{ulabel}, Suffix: rapid.Bool().Draw(rt, "neg_rsuffix")}
+			c.Expr.AggFn = pick(rt, []string{"min", "max"}, "neg_agg")
+			c.Expr.AggGroup = &refeval.Grouping{Labels: []string{"app"}, Suffix: rapid.Bool().Draw(rt, "neg_suffix")}
+			if rapid.IntRange(0, 2).Draw(rt, "neg_without") == 0 {
+				c.Expr.AggGroup = &refeval.Grouping{Without: true, Labels: []string{ulabel, "msg", "level"}}
+			}
+		} else if rapid.IntRange(0, 1).Draw(rt, "agg") == 0 && !plain {
 			c.Expr.AggFn = pick(rt, []string{"sum", "min", "max", "avg", "count"}, "aggfn")
 			if rapid.IntRange(0, 4).Draw(rt, "agroup") > 0 {
 				c.Expr.AggGroup = genGrouping(rt)
@@ -754,6 +792,9 @@ func genLabelEdit(rt *rapid.T) refeval.Stage {
 		p := []refeval.Param{{Name: "app", Src: "env"}, {Name: "out", Src: "app"}, {Name: "env", Src: "app"}}[rapid.IntRange(0, 2).Draw(rt, "edit_copy")]
 		return refeval.Stage{Kind: refeval.KLabelFormat, Params: []refeval.Param{p}}
 	case 4, 5:
+		if rapid.Bool().Draw(rt, "edit_drop_repeated") {
+			return genDropRepeated(rt, []string{"app", "env", "env"})
+		}
 		p := refeval.Param{Name: pick(rt, []string{"env", "app", "job"}, "edit_drop")}
 		if rapid.IntRange(0, 2).Draw(rt, "edit_dropval") == 0 {
 			p.HasVal, p.Val = true, pick(rt, streamLabelVals, "edit_dropv")
@@ -764,4 +805,47 @@ func genLabelEdit(rt *rapid.T) refeval.Stage {
 	default:
 		return genLineFilter(rt)
 	}
+}
+
+// dropValues: what the labels take in the data (and one value nothing takes)
+var dropValues = map[string][]string{
+	"level": {"info", "error", "unknown", "debug"},
+	"a":     {"bc", "c", "info", "zz"},
+	"lvl":   {"1", "l1", "0", "zz"},
+	"code":  {"1", "7", "0", "error"},
+	"app":   {"x", "y", "web", "db"},
+	"env":   {"x", "db", "web", "zz"},
+}
+
+// genDropRepeated draws a drop stage that names one label more than once: several values,
+// bare + valued (either order), an exact duplicate, optionally mixed with another label.
+// LogQL and qryn's SQL engine (mapFilter over every listed pair) honour each pair.
+func genDropRepeated(rt *rapid.T, names []string) refeval.Stage {
+	l := pick(rt, names, "dr_name")
+	return genDropRepeatedOf(rt, l, dropValues[l])
+}
+
+func genDropRepeatedOf(rt *rapid.T, l string, vals []string) refeval.Stage {
+	v1 := pick(rt, vals, "dr_v1")
+	v2 := pick(rt, vals, "dr_v2")
+	val := func(v string) refeval.Param { return refeval.Param{Name: l, Val: v, HasVal: true} }
+	var ps []refeval.Param
+	switch rapid.IntRange(0, 5).Draw(rt, "dr_form") {
+	case 0, 1:
+		ps = []refeval.Param{val(v1), val(v2)}
+	case 2:
+		ps = []refeval.Param{{Name: l}, val(v1)}
+	case 3:
+		ps = []refeval.Param{val(v1), {Name: l}}
+	case 4:
+		ps = []refeval.Param{val(v1), val(v1)}
+	default:
+		ps = []refeval.Param{val(v1), val(v2), val(pick(rt, vals, "dr_v3"))}
+	}
+	if rapid.IntRange(0, 2).Draw(rt, "dr_mixed") == 0 {
+		other := refeval.Param{Name: pick(rt, []string{"env", "msg", "n", "app"}, "dr_other")}
+		at := rapid.IntRange(0, len(ps)).Draw(rt, "dr_at")
+		ps = append(ps[:at], append([]refeval.Param{other}, ps[at:]...)...)
+	}
+	return refeval.Stage{Kind: refeval.KDrop, Params: ps}
 }
